@@ -87,6 +87,70 @@ pub fn dt_j(dt: &toml_datetime::Datetime) -> J {
     json!({"k": "dt", "date": date, "time": time, "off": off})
 }
 
+/// The text that `Datetime`'s `Serialize` hands to a serializer (its Display form), read by the harness itself:
+/// `Datetime::from_str` is code under test and must not decide what a captured value is.
+pub fn dt_from_display(s: &str) -> Option<J> {
+    let b = s.as_bytes();
+    let num = |r: std::ops::Range<usize>| -> Option<u32> { s.get(r)?.parse::<u32>().ok() };
+    let mut i = 0;
+    let mut date = json!([]);
+    let mut time = json!([]);
+    let mut off = json!({"t": "N", "m": 0});
+    if b.len() >= 10 && b[4] == b'-' && b[7] == b'-' {
+        date = json!([num(0..4)?, num(5..7)?, num(8..10)?]);
+        i = 10;
+        if i < b.len() {
+            if b[i] == b'T' || b[i] == b't' || b[i] == b' ' {
+                i += 1;
+            } else {
+                return None;
+            }
+        }
+    }
+    if i < b.len() {
+        if b.len() < i + 8 || b[i + 2] != b':' || b[i + 5] != b':' {
+            return None;
+        }
+        let (h, m, sec) = (num(i..i + 2)?, num(i + 3..i + 5)?, num(i + 6..i + 8)?);
+        i += 8;
+        let mut ns: u64 = 0;
+        if i < b.len() && b[i] == b'.' {
+            i += 1;
+            let st = i;
+            while i < b.len() && b[i].is_ascii_digit() {
+                if i - st < 9 {
+                    ns = ns * 10 + (b[i] - b'0') as u64;
+                }
+                i += 1;
+            }
+            if i == st {
+                return None;
+            }
+            for _ in (i - st).min(9)..9 {
+                ns *= 10;
+            }
+        }
+        time = json!([h, m, sec, ns]);
+        if i < b.len() {
+            if b[i] == b'Z' || b[i] == b'z' {
+                off = json!({"t": "Z", "m": 0});
+                i += 1;
+            } else if b[i] == b'+' || b[i] == b'-' {
+                if b.len() < i + 6 || b[i + 3] != b':' {
+                    return None;
+                }
+                let mins = (num(i + 1..i + 3)? * 60 + num(i + 4..i + 6)?) as i64;
+                off = json!({"t": "O", "m": if b[i] == b'-' { -mins } else { mins }});
+                i += 6;
+            }
+        }
+    }
+    if i != b.len() || (date == json!([]) && time == json!([])) {
+        return None;
+    }
+    Some(json!({"k": "dt", "date": date, "time": time, "off": off}))
+}
+
 fn span_j(sp: Option<std::ops::Range<usize>>) -> J {
     match sp {
         Some(r) => json!([r.start, r.end]),
